@@ -1,7 +1,7 @@
 (* C14 - Transfers are all-or-nothing under dependency failures. *)
 From Cctp Require Import Lib.Bytes Lib.SMap Lib.Text Lib.Bech32 Lib.Hex Lib.Keccak.
 From Cctp Require Import Model.Codec Model.State Model.Attest Model.Ledger Model.Handlers Model.Chain.
-From Cctp Require Import Proofs.MonadFacts Proofs.FlowFacts Proofs.CallFacts Proofs.MoneyFacts Proofs.CodecFacts.
+From Cctp Require Import Proofs.MonadFacts Proofs.FlowFacts Proofs.CallFacts Proofs.MoneyFacts Proofs.CodecFacts Proofs.SimFacts.
 From Cctp Require Import Vectors.Examples.
 
 Definition is_deposit_of (t : tx) from amount dest mr bt caller : Prop :=
@@ -91,8 +91,17 @@ Example C14_dirty_state_exists :
   nn (h_st (r_dirty r)) = 8%N /\ nn (c_st (r_chain r)) = 7%N.
 Proof. vm_compute. repeat split; reflexivity. Qed.
 
+(* The same holds for an execution whose branch is dropped although the handler succeeded (simulation, CheckTx, an early
+   message of a transaction whose later message failed): the chain reached by a history with such executions
+   interleaved is the chain reached by the delivered steps alone, and later results do not see them. *)
+Theorem C14_discarded_executions_leave_no_trace : forall e c h1 s h2,
+  run_modes e c (h1 ++ (Discarded, s) :: h2) = run_modes e c (h1 ++ h2) /\
+  trace e (run_modes e c (h1 ++ [(Discarded, s)])) (delivered h2) = trace e (run_modes e c h1) (delivered h2).
+Proof. intros. split; [apply discarded_step_is_invisible|apply later_results_ignore_discarded]. Qed.
+
 Print Assumptions C14_deposit_ok_implies_all.
 Print Assumptions C14_deposit_fault_implies_error.
 Print Assumptions C14_receive_ok_implies_mint.
 Print Assumptions C14_late_failure_is_error.
 Print Assumptions C14_rollback_restores.
+Print Assumptions C14_discarded_executions_leave_no_trace.
